@@ -9,6 +9,7 @@ tinyint … varint column DENOTES, written from the documents the gocql document
           column CANNOT hold (it has 4 or 16 bytes): the string must be refused, not stripped.
   date  : `YYYY-MM-DD` of the proleptic Gregorian calendar (the layout gocql documents, '2006-01-02').
   integer columns / varint : an optionally signed decimal literal.
+  uuid / timeuuid : 32 hex digits, hyphens between bytes allowed.
 
 `strSpec col s` is the outcome the property demands: `merr` (the string denotes nothing the column can hold), or the
 specification's bytes of the denoted value together with the canonical string a `*string` gets back — which must
@@ -154,6 +155,27 @@ def parseDate (s : Bytes) : Option Int :=
      | _, _, _ => none)
   | _ => none
 
+/-! ## UUID literals: "a 32 digit hexadecimal number (that might contain hyphens)" (gocql's documentation of ParseUUID;
+     RFC 4122 §3 writes 8-4-4-4-12 lower case and accepts upper case on input).  Hyphens separate whole bytes: a hyphen
+     between the two digits of one byte is no separator.  Braces, `urn:uuid:`, whitespace are not part of the number. -/
+
+def uuidDigits : Bytes → Nat → List Nat → Option (List Nat)
+  | [], _, acc => some acc.reverse
+  | c :: r, j, acc =>
+    if c = 45 ∧ j % 2 = 0 then uuidDigits r j acc
+    else match hexDigitVal c with
+      | some d => uuidDigits r (j+1) (d :: acc)
+      | none => none
+
+def pairBytes : List Nat → Bytes
+  | a :: b :: r => UInt8.ofNat (a * 16 + b) :: pairBytes r
+  | _ => []
+
+def parseUUIDLit (s : Bytes) : Option Bytes :=
+  match uuidDigits s 0 [] with
+  | some ds => if ds.length = 32 then some (pairBytes ds) else none
+  | none => none
+
 /-! ## the demanded outcome -/
 
 inductive Outcome
@@ -184,6 +206,14 @@ def strSpec (t : CqlTy) (s : Bytes) : Outcome :=
     else (match parseDate s with
      | none => .merr
      | some d => .ok (ValueSpec.beBytes 4 (d + 2147483648).toNat) s)
+  | .uuid | .timeuuid =>
+    (match parseUUIDLit s with
+     | none => .merr
+     | some b =>
+       let back := Marshal.uuidString b
+       (match parseUUIDLit back with
+        | some b' => if b' = b then .ok b back else .inconsistent
+        | none => .inconsistent))
   | .varint =>
     (match Marshal.parseDec s with
      | none => .merr
